@@ -38,6 +38,10 @@ func valBytes(v int) []byte {
 		return nil
 	}
 
+	if v == 4 {
+		return []byte{} // the empty value (allowed by Put; only nil is refused)
+	}
+
 	return []byte(fmt.Sprintf("v%d", v))
 }
 
@@ -80,6 +84,10 @@ func valNum(b []byte) int {
 	var v int
 	if b == nil {
 		return 0
+	}
+
+	if len(b) == 0 {
+		return 4
 	}
 
 	if n, _ := fmt.Sscanf(string(b), "v%d", &v); n == 1 && string(valBytes(v)) == string(b) {
@@ -530,17 +538,9 @@ func (w *world) exec(o Op) (out Out) {
 
 		return Out{Kind: "done"}
 	case "rewrap":
-		// the user flushes every wrapper (outermost first) before dropping the wrapper objects: Flush of a batching
-		// wrapper hands its queue to the store below, which may queue again
-		for i := len(w.layers) - 1; i >= 0; i-- {
-			ls, err := w.layers[i].OpenStore(storeName)
-			if err != nil {
-				return Out{Kind: "err", Err: "rewrap: " + err.Error()}
-			}
-
-			if err := ls.Flush(); err != nil {
-				return errOut(err)
-			}
+		// the user calls Flush ("forces any queued up operations to execute") and then drops the wrapper objects
+		if err := s.Flush(); err != nil {
+			return errOut(err)
 		}
 
 		if err := w.wrap(); err != nil {
@@ -973,6 +973,8 @@ func randOp(r *hx.Rng, st Stack) Op {
 		v := 1 + r.Intn(3)
 		if r.Intn(30) == 0 {
 			v = 0
+		} else if r.Intn(8) == 0 {
+			v = 4 // empty value
 		}
 
 		return Op{Kind: "put", K: randKey(r), V: v, T: randTags(r)}
@@ -1014,6 +1016,10 @@ func randOp(r *hx.Rng, st Stack) Op {
 			b[i] = BOp{K: 1 + r.Intn(3)}
 			if r.Intn(3) > 0 {
 				b[i].V = 1 + r.Intn(3)
+				if r.Intn(8) == 0 {
+					b[i].V = 4
+				}
+
 				b[i].T = tagSets[r.Intn(len(tagSets))]
 			}
 		}
@@ -1060,7 +1066,7 @@ func randomCase(r *hx.Rng, st Stack, n int) Case {
 	// half of the cases start from a populated provider under fresh wrappers
 	if r.Bool() {
 		for i := 0; i < 1+r.Intn(4); i++ {
-			ops = append(ops, Op{Kind: "put", K: 1 + r.Intn(3), V: 1 + r.Intn(3), T: tagSets[r.Intn(len(tagSets))]})
+			ops = append(ops, Op{Kind: "put", K: 1 + r.Intn(3), V: 1 + r.Intn(4), T: tagSets[r.Intn(len(tagSets))]})
 		}
 
 		ops = append(ops, Op{Kind: "rewrap"})
@@ -1212,7 +1218,7 @@ func main() {
 	// random sequences over every stack up to depth 3 (mem) / a selection (leveldb)
 	memStacks := stacks([]string{"mem"}, 3, []string{"noop", "b64det", "b64rand"})
 	ldbStacks := stacks([]string{"leveldb"}, 2, []string{"b64det", "b64rand"})
-	perMem, perLdb, coqEvery, perEdv := 8, 4, 2, 12
+	perMem, perLdb, coqEvery, perEdv := 8, 4, 3, 12
 
 	if thorough {
 		perMem, perLdb, coqEvery, perEdv = 60, 20, 6, 100
